@@ -499,12 +499,25 @@ func init() {
 			unsup("AEAD.Seal with a non-nil dst")
 		}
 		ln := Add(a[3].Len, Num(16))
+		sealed := App("spec!gcmSeal", SInt, App("spec!cipherKey", SInt, a[0].X), bv(a[2]), bv(a[3]), bv(a[4]))
 		out := fr.makeSlice(st, res0(cc), ln, ln)
 		content := Fresh("gcm.sealed", SArr(SInt, SInt))
 		h2 := st.heapGet("S:byte", SArr(SInt, SArr(SInt, SInt)))
-		st.heapSet("S:byte", Store(h2, out.X, content))
-		fr.C.addFact(Eq(fr.C.bytesVal(content, Num(0), ln), App("spec!gcmSeal", SInt, App("spec!cipherKey", SInt, a[0].X), bv(a[2]), bv(a[3]), bv(a[4]))))
-		return out, st
+		if a[1].X.IsConst() && a[1].X.Val.Sign() == 0 {
+			st.heapSet("S:byte", Store(h2, out.X, content))
+			fr.C.addFact(Eq(fr.C.bytesVal(content, Num(0), ln), sealed))
+			return out, st
+		}
+		// dst is an empty slice of an existing array (the x[:0] idiom): like append, the output is written into dst's array
+		// when its capacity suffices - overwriting whatever that array holds - and into a new array otherwise
+		dst := a[1]
+		fits := Le(ln, dst.Cap)
+		inPlace := Fresh("gcm.sealed.inplace", SArr(SInt, SInt))
+		fr.C.addFact(Eq(fr.C.bytesVal(content, Num(0), ln), sealed))
+		fr.C.addFact(Eq(fr.C.bytesVal(inPlace, dst.Off, ln), sealed))
+		st.heapSet("S:byte", Ite(fits, Store(h2, dst.X, inPlace), Store(h2, out.X, content)))
+		res := &Val{K: KSlice, T: out.T, X: Ite(fits, dst.X, out.X), Off: Ite(fits, dst.Off, Num(0)), Len: ln, Cap: Ite(fits, dst.Cap, ln)}
+		return res, st
 	})
 	// AEAD.Open(dst, nonce, ciphertext, ad) with dst == nil: succeeds iff gcmValid(key, nonce, ciphertext, ad); then the
 	// plaintext is gcmOpen(key, nonce, ciphertext, ad)
